@@ -35,6 +35,9 @@ pub enum Viol {
     /// (later items of that chromosome removed so this is the only violation)
     BeyondChrom { ci: usize, ii: usize },
     UnknownChrom { ci: usize },
+    /// an unknown chromosome whose name is a known one with a blank behind it (0), in front of it
+    /// (1), or in the other letter case (2)
+    UnknownChromNear { ci: usize, how: u8 },
     /// chromosomes ci and ci+1 swapped, sorted input required
     ChromOrder { ci: usize },
     /// chromosome 0's last item moved after chromosome 1 (non-contiguous run), sorted input required
@@ -165,6 +168,19 @@ fn build_input(c: &C13Case) -> Input {
             Viol::UnknownChrom { ci } => {
                 let old = names[*ci].clone();
                 let new = format!("{}_unlisted", old);
+                for r in rows.iter_mut() {
+                    if r.0 == old {
+                        r.0 = new.clone();
+                    }
+                }
+            }
+            Viol::UnknownChromNear { ci, how } => {
+                let old = names[*ci].clone();
+                let new = match how {
+                    0 => format!("{} ", old),
+                    1 => format!(" {}", old),
+                    _ => old.to_uppercase(),
+                };
                 for r in rows.iter_mut() {
                     if r.0 == old {
                         r.0 = new.clone();
@@ -413,6 +429,9 @@ fn c13_viols(bed: bool) -> Vec<(Viol, bool)> {
             v.push((Viol::BeyondChrom { ci, ii }, true));
         }
         v.push((Viol::UnknownChrom { ci }, true));
+        for how in 0..3u8 {
+            v.push((Viol::UnknownChromNear { ci, how }, true));
+        }
     }
     for ci in 0..2 {
         v.push((Viol::ChromOrder { ci }, true));
@@ -470,6 +489,7 @@ fn c13_tags(c: &C13Case) -> Vec<String> {
             Viol::StartAfterEnd { .. } => "start_after_end".to_string(),
             Viol::BeyondChrom { .. } => "beyond_chrom".to_string(),
             Viol::UnknownChrom { .. } => "unknown_chrom".to_string(),
+            Viol::UnknownChromNear { .. } => "unknown_chrom_near_a_known_name".to_string(),
             Viol::ChromOrder { .. } => "chrom_order".to_string(),
             Viol::ChromRepeated => "chrom_repeated".to_string(),
             Viol::Malformed { how, .. } => format!("malformed_{}", how),
